@@ -254,3 +254,50 @@ Definition crash_engine (c : val) : val :=
       end
   | _ => bad_case
   end.
+
+(* ---------- C30, restart clause: a refused filter creates nothing ---------- *)
+
+(* (client id, filter) pairs of the SUBSCRIBE packets of a history, by outcome *)
+Definition sub_outcomes (refused : bool) (es : list event) : list sub_key :=
+  flat_map (fun e => match e with
+                     | ESubscribed cid subs =>
+                         filter_map (fun sr : subscription * N =>
+                                       if Bool.eqb (128 <=? snd sr) refused then Some (cid, su_filter (fst sr)) else None) subs
+                     | _ => []
+                     end) es.
+
+Definition mem_sub_key (k : sub_key) (l : list sub_key) : bool := existsb (sub_key_eqb k) l.
+
+(* a snapshot entry (cid (filter ...)) or a stored subscription (cid filter qos) *)
+Definition entry_key (v : val) : option sub_key :=
+  match v with
+  | VL [VB cid; VL (VB f :: _)] => Some (cid, f)
+  | VL [VB cid; VB f; _] => Some (cid, f)
+  | _ => None
+  end.
+
+Definition keys_of_entries (l : list val) : list sub_key := filter_map entry_key l.
+
+(* ENGINE subinvalid_restart Storage.RestartEngine.subinvalid_restart_engine *)
+Definition subinvalid_restart_engine (c : val) : val :=
+  match c with
+  | VL [VN bi; VL evs; s1; VL stored; s2] =>
+      match backend_of_index bi, map_opt parse_event evs, parse_snapshot s1, parse_snapshot s2 with
+      | Some b, Some es, Some [_; i1; c1; _; _], Some [_; i2; c2; _; _] =>
+          let accepted := sub_outcomes false es in
+          (* refused and never accepted for that client: nothing may exist for it anywhere *)
+          let refused := filter (fun k => negb (mem_sub_key k accepted)) (sub_outcomes true es) in
+          let hit := fun (l : list val) => existsb (fun k => mem_sub_key k refused) (keys_of_entries l) in
+          let lost := fun (l : list val) => existsb (fun k => negb (mem_sub_key k (keys_of_entries l))) accepted in
+          let tg := match b with Badger => tag "subinvalid-badger" | Pebble => tag "subinvalid-pebble"
+                            | Bolt => tag "subinvalid-bolt" | Redis => tag "subinvalid-redis" end in
+          let nontriv := negb (is_nil refused) in
+          if hit i1 || hit c1 then verdict 1 tg nontriv [VN 1]          (* in the index / client state *)
+          else if hit stored then verdict 1 tg nontriv [VN 2]           (* in the store *)
+          else if hit i2 || hit c2 then verdict 1 tg nontriv [VN 3]     (* after the restart *)
+          else if lost i1 || lost stored || lost i2 then verdict 2 tg nontriv [VN 4]
+          else verdict 0 tg nontriv []
+      | _, _, _, _ => bad_case
+      end
+  | _ => bad_case
+  end.
